@@ -13,6 +13,8 @@ def loop_shape(fn, ctx, L):
        body   node id
     """
     n = fn.nodes[L]
+    if n["k"] == "while":
+        return _while_shape(fn, ctx, L)
     if n["k"] == "forrange":
         allx = loop_exits(fn, L)
         v = n.get("var") or {}
@@ -129,6 +131,42 @@ def loop_shape(fn, ctx, L):
             st = out["start"]
             if st[0] == "mcall" and st[1].split("::")[-1] in ("begin", "cbegin") and st[2] == m:
                 out.update(kind="iter", bound=m)
+                return out
+    return out
+
+
+def _while_shape(fn, ctx, L):
+    """it = C.begin(); while (it != C.end()) { ...; ++it; }   (the iterator is declared before the loop and advanced once, at the end
+    of the body, on every path)   ->  the same description as the for-loop form.  Anything else: kind 'other'."""
+    n = fn.nodes[L]
+    allx = loop_exits(fn, L)
+    out = {"kind": "other", "node": L, "body": n.get("body"), "var": None, "exits": [e for e in allx if e[1] != "continue"],
+           "continues": [e for e in allx if e[1] == "continue"]}
+    if n.get("c") is None or n.get("body") is None:
+        return out
+    fs = ctx.cmp_fact(n["c"], True)
+    if len(fs) != 1 or fs[0][0] != "!=":
+        return out
+    a, b = fs[0][1], fs[0][2]
+    for var, other in ((a, b), (b, a)):
+        other = _unconv(other)
+        if var[0] == "var" and other[0] == "mcall" and other[1].split("::")[-1] in ("end", "cend"):
+            dv = ctx.decls.get(var[1], {})
+            if dv.get("init") is None:
+                continue
+            st = _unconv(ctx.key(dv["init"]))
+            if not (st[0] == "mcall" and st[1].split("::")[-1] in ("begin", "cbegin") and st[2] == other[2]):
+                continue
+            muts = [m for m in ctx.mut.get(var[1], []) if any(m == x for x, _ in fn.walk(n["body"]))]
+            outside = [m for m in ctx.mut.get(var[1], []) if m not in muts and m != dv.get("declnode")]
+            if len(muts) != 1 or outside:
+                continue
+            mn = fn.nodes[muts[0]]
+            isinc = (mn["k"] == "un" and mn["op"] == "++") or (mn["k"] == "call" and mn.get("ck") == "op" and mn.get("op") == "++")
+            body = fn.nodes[n["body"]]
+            stm = [c for c in body.get("body", []) if c is not None and fn.nodes[c]["k"] != "null"] if body["k"] == "block" else [n["body"]]
+            if isinc and stm and stm[-1] == muts[0] and not out["continues"]:
+                out.update(kind="iter", var=("var", var[1], var[2]), start=st, bound=other[2])
                 return out
     return out
 
@@ -254,7 +292,7 @@ def sum_over(fn, ctx, container):
             lhs = n["l"] if n["k"] == "bin" else n["args"][0]
             rhs = n["r"] if n["k"] == "bin" else n["args"][1]
             for L in enclosing_loops(fn, j):
-                if fn.nodes[L]["k"] not in ("for", "forrange"):
+                if fn.nodes[L]["k"] not in ("for", "forrange", "while"):
                     continue
                 shp = loop_shape(fn, ctx, L)
                 from .expr import key_contains
